@@ -11,6 +11,8 @@
 (* depth (pre-order of the definition tree).  An item is                   *)
 (*   [k, depth, deco, nd, sig2, gap, doc]                                  *)
 (*   k     "def" | "adef" | "class" | "iftrue" | "ifmain" | "try" | "with" *)
+(*         | clause kinds "exc" "telse" "fin" "case" "ifelse" "forelse"    *)
+(*         "for" (items inside an except / else / finally / case clause)   *)
 (*   deco  "none" | "plain" | "property" | "setter" | "deleter" |          *)
 (*         "static" | "classm" | "wraps"                                   *)
 (*   nd    number of further decorator lines in front; sig2: the signature *)
@@ -31,8 +33,13 @@ CONSTANTS Items,      \* alphabet of item records
           MaxItems, MinItems, MaxDepth, Deviation
 
 NoDoc == [kind |-> "none", q |-> "d3", opn |-> "own", cls |-> "own", lead |-> 0, nblk |-> 0, inlead |-> 0, nsrc |-> 0, nwant |-> 0, hdr |-> "none"]
-Container(k) == k \in {"def", "adef", "class", "iftrue", "ifmain", "try", "with"}
-Transparent(k) == k \in {"iftrue", "try", "with"}
+\* clause kinds: the items below them stand in the except clause of a try ("exc"), its else clause ("telse"), its finally clause
+\* ("fin"), a case of a match statement ("case"), the else clause of an if ("ifelse") or of a for loop ("forelse"), a for body ("for")
+ClauseKinds == {"exc", "telse", "fin", "case", "ifelse", "forelse", "for"}
+Container(k) == k \in {"def", "adef", "class", "iftrue", "ifmain", "try", "with"} \cup ClauseKinds
+Transparent(k) == k \in {"iftrue", "try", "with"} \cup ClauseKinds
+\* lines in front of the clause header that belong to the same statement (try: ... / except ...: pass / match ...: / if False: pass / for ...: pass)
+Prelude(k) == CASE k = "telse" -> 2 [] k \in {"exc", "fin", "case", "ifelse", "forelse"} -> 1 [] OTHER -> 0
 IsFunc(k) == k \in {"def", "adef"}
 
 -----------------------------------------------------------------------------
@@ -92,6 +99,7 @@ ItemLines(it, x) ==
   [j \in 1..it.gap |-> FL("blank", x, j, NoDL)]
   \o [j \in 1..it.nd |-> FL("deco_extra", x, j, NoDL)]
   \o (IF it.deco # "none" THEN <<FL("deco", x, 0, NoDL)>> ELSE <<>>)
+  \o [j \in 1..Prelude(it.k) |-> FL("pre", x, j, NoDL)]
   \o (IF it.sig2 THEN <<FL("head1", x, 0, NoDL), FL("head2", x, 0, NoDL)>> ELSE <<FL("head", x, 0, NoDL)>>)
   \o (IF it.doc.kind = "none" THEN <<>> ELSE LET dls == DocLines(it.doc) IN [j \in 1..Len(dls) |-> FL("doc", x, j - 1, dls[j])])
   \o <<FL("body", x, 0, NoDL)>>
@@ -228,6 +236,9 @@ Visit(items, x, st, acc) ==
              THEN Visit(items, x + 1, [cls |-> x, clsDepth |-> it.depth, skip |-> -1], Put(acc, 0, Name(items, x), x))
              ELSE Visit(items, x + 1, [st1 EXCEPT !.skip = it.depth], acc)
       ELSE IF it.k = "ifmain" /\ "CollectMainGuard" \notin Deviation THEN Visit(items, x + 1, [st1 EXCEPT !.skip = it.depth], acc)
+      \* except handlers and match cases are not statement nodes, the else clause of a try is a separate field: a visitor that
+      \* walks "the statements of the body" only loses them
+      ELSE IF it.k \in {"exc", "case", "telse"} /\ "SkipClauseBodies" \in Deviation THEN Visit(items, x + 1, [st1 EXCEPT !.skip = it.depth], acc)
       ELSE Visit(items, x + 1, st1, acc)
 VisitInventory(items) == Visit(items, 1, [cls |-> 0, clsDepth |-> 0, skip |-> -1], {})
 
